@@ -2,6 +2,7 @@ package run
 
 import (
 	"context"
+	"errors"
 
 	wire "github.com/jeroenrinzema/psql-wire"
 	"github.com/jeroenrinzema/psql-wire/pkg/buffer"
@@ -18,6 +19,8 @@ type nameCloser interface {
 	Close(ctx context.Context, name string) error
 }
 
+var errCache = errors.New("the cache is not available")
+
 type recStatements struct {
 	x     *Exec
 	inner wire.StatementCache
@@ -25,10 +28,17 @@ type recStatements struct {
 
 func (c *recStatements) Set(ctx context.Context, name string, stmt *wire.PreparedStatement) error {
 	c.x.cb(ctx, M{"name": "st.set", "key": name})
+	if name == "xset" {
+		return errCache // a cache may refuse
+	}
 	return c.inner.Set(ctx, name, stmt)
 }
 
 func (c *recStatements) Get(ctx context.Context, name string) (*wire.Statement, error) {
+	if name == "xget" {
+		c.x.cb(ctx, M{"name": "st.get", "key": name, "hit": false})
+		return nil, errCache // ... or fail outright (its backing store is gone, say)
+	}
 	st, err := c.inner.Get(ctx, name)
 	c.x.cb(ctx, M{"name": "st.get", "key": name, "hit": st != nil && err == nil})
 	return st, err
@@ -49,10 +59,17 @@ type recPortals struct {
 
 func (c *recPortals) Bind(ctx context.Context, name string, stmt *wire.Statement, params []wire.Parameter, formats []wire.FormatCode) error {
 	c.x.cb(ctx, M{"name": "po.bind", "key": name})
+	if name == "xbind" {
+		return errCache
+	}
 	return c.inner.Bind(ctx, name, stmt, params, formats)
 }
 
 func (c *recPortals) Get(ctx context.Context, name string) (*wire.Portal, error) {
+	if name == "xget" {
+		c.x.cb(ctx, M{"name": "po.get", "key": name, "hit": false})
+		return nil, errCache
+	}
 	p, err := c.inner.Get(ctx, name)
 	c.x.cb(ctx, M{"name": "po.get", "key": name, "hit": p != nil && err == nil})
 	return p, err
